@@ -166,18 +166,16 @@ where
 
     fn next(&mut self) -> Option<Self::Item> {
         let u = self.stack.pop()?;
-        let visited_ptr = self.visited.as_mut_ptr();
 
-        if unsafe { *visited_ptr.add(u) } {
+        // Checked: a source or a successor may lie outside `0..order`.
+        if self.visited[u] {
             return None;
         }
 
-        unsafe {
-            *visited_ptr.add(u) = true;
-        }
+        self.visited[u] = true;
 
         for v in self.digraph.out_neighbors(u) {
-            if !unsafe { *visited_ptr.add(v) } {
+            if !self.visited[v] {
                 self.stack.push(v);
             }
         }
